@@ -9,7 +9,7 @@ Spec: the formal power series `den e` whose i-th coefficient is `coeff e i`, and
 view the polynomial `poly e`.
 
 Python `f + g` is `G.sum`, `f - g` is `G.sum f (scale (-1) g)`, `f * g` is `G.prod`, `f * c` is `scale c f`,
-`f / c` is `scale (1/c) f`, `f + c` is `G.sum f (.fn (listCoeff [c]))`, `f.dx(k)` is `dx k f`.
+`f / c` is `scale (1/c) f`, `f + c` is `G.sum f (leaf [c])`, a coefficient list `cs` is `leaf cs` (= `fn (listCoeff cs) (len cs)`), `f.dx(k)` is `dx k f`.
 -/
 open PowerSeries Polynomial
 namespace GF.C16
@@ -34,8 +34,8 @@ theorem coeff_div (c : ℚ) (e : G) (i : Nat) : coeff (scale (1 / c) e) i = coef
 
 /-- adding a constant changes the constant coefficient only -/
 theorem coeff_add_const (c : ℚ) (e : G) (i : Nat) :
-    coeff (.sum e (.fn (listCoeff [c]))) i = coeff e i + (if i = 0 then c else 0) := by
-  simp only [coeff, listCoeff]
+    coeff (.sum e (leaf [c])) i = coeff e i + (if i = 0 then c else 0) := by
+  simp only [coeff, leaf, listCoeff]
   cases i <;> simp
 
 /-- the whole algebra is a homomorphism into formal power series -/
@@ -61,17 +61,17 @@ theorem coeff_dx (k : Nat) (e : G) (i : Nat) :
 theorem coeff_dx_zero (e : G) (i : Nat) : coeff (dx 0 e) i = coeff e i := by
   rw [coeff_dx]; simp
 
-/-- the truncation hypothesis of `FunctionGF.evaluate` is stable under every operator -/
+/-- the hypothesis of `FunctionGF.evaluate` (nothing beyond the largest term) is stable under every operator -/
 theorem leafOK_scale (c : ℚ) : ∀ e : G, LeafOK e → LeafOK (scale c e) := by
   intro e; induction e with
-  | fn f => intro h i hi; simp [h i hi]
+  | fn f n => intro h i hi; simp [h i hi]
   | sum a b iha ihb => intro h; exact ⟨iha h.1, ihb h.2⟩
   | prod a b iha _ => intro h; exact ⟨iha h.1, h.2⟩
 
 theorem leafOK_dx : ∀ (k : Nat) (e : G), LeafOK e → LeafOK (dx k e) := by
   intro k e
   induction k, e using dx.induct with
-  | case1 k f =>
+  | case1 k f n =>
     intro h; rw [dx]; intro i hi
     have : f (i + k) = 0 := h _ (by omega)
     simp only [dfn, this]
@@ -85,7 +85,8 @@ theorem leafOK_dx : ∀ (k : Nat) (e : G), LeafOK e → LeafOK (dx k e) := by
     intro h; rw [dx]; exact ih3 ⟨⟨ih1 h.1, h.2⟩, ⟨h.1, ih2 h.2⟩⟩
 
 /-- evaluation view: the value the code computes is the value at x of the polynomial with the reported
-    coefficients, i.e. Σ f[i]·xⁱ (hypothesis: every leaf has degree ≤ 300, the code's truncation) -/
+    coefficients, i.e. Σ f[i]·xⁱ (hypothesis: no leaf has coefficients beyond its largest term; `built_ok` below
+    discharges it for everything built from coefficient lists) -/
 theorem eval_eq_sum (e : G) (h : LeafOK e) (x : ℚ) :
     ∃ p : ℚ[X], (∀ i, p.coeff i = coeff e i) ∧ eval e x = p.sum (fun i a => a * x ^ i) := by
   obtain ⟨p, hc, he⟩ := eval_is_polynomial e h x
@@ -109,10 +110,10 @@ theorem eval_dx (k : Nat) (e : G) (h : LeafOK e) (x : ℚ) :
 
 /-- differentiating a coefficient list past its degree gives 0 -/
 theorem dx_past_degree (cs : List ℚ) (k i : Nat) (hk : cs.length ≤ k) :
-    coeff (dx k (.fn (listCoeff cs))) i = 0 := by
+    coeff (dx k (leaf cs)) i = 0 := by
   rw [coeff_dx]
-  have : coeff (.fn (listCoeff cs)) (i + k) = 0 := by
-    simp only [coeff, listCoeff]; rw [List.getD_eq_default]; omega
+  have : coeff (leaf cs) (i + k) = 0 := by
+    simp only [coeff, leaf, listCoeff]; rw [List.getD_eq_default]; omega
   rw [this]
   generalize List.range k = l
   induction l with
@@ -120,19 +121,115 @@ theorem dx_past_degree (cs : List ℚ) (k i : Nat) (hk : cs.length ≤ k) :
   | cons x xs ih => simpa using ih
 
 
+/-! ### The property at full strength: every expression over coefficient lists
+
+`E` is the syntax of the property's quantifier ("every generating function built from coefficient lists by addition,
+subtraction, multiplication by other functions and by constants, division by constants and differentiation to any
+order"), `build` is what the Python operators construct for it, `spec` is exact polynomial arithmetic. -/
+
+inductive E where
+  | cs (l : List ℚ)
+  | add (a b : E) | sub (a b : E) | mul (a b : E)
+  | smul (a : E) (c : ℚ) | div (a : E) (c : ℚ) | addc (a : E) (c : ℚ) | subc (a : E) (c : ℚ)
+  | dx (a : E) (k : Nat)
+
+def build : E → G
+  | .cs l => leaf l
+  | .add a b => .sum (build a) (build b)
+  | .sub a b => .sum (build a) (scale (-1) (build b))
+  | .mul a b => .prod (build a) (build b)
+  | .smul a c => scale c (build a)
+  | .div a c => scale (1 / c) (build a)
+  | .addc a c => .sum (build a) (leaf [c])
+  | .subc a c => .sum (build a) (leaf [c * -1])
+  | .dx a k => GF.dx k (build a)
+
+noncomputable def spec : E → ℚ[X]
+  | .cs l => ∑ i ∈ Finset.range l.length, Polynomial.C (l.getD i 0) * Polynomial.X ^ i
+  | .add a b => spec a + spec b
+  | .sub a b => spec a - spec b
+  | .mul a b => spec a * spec b
+  | .smul a c => Polynomial.C c * spec a
+  | .div a c => Polynomial.C (1 / c) * spec a
+  | .addc a c => spec a + Polynomial.C c
+  | .subc a c => spec a - Polynomial.C c
+  | .dx a k => Polynomial.derivative^[k] (spec a)
+
+theorem leafOK_leaf (l : List ℚ) : LeafOK (leaf l) := by
+  intro i hi; simp only [listCoeff]; rw [List.getD_eq_default]; omega
+
+theorem poly_leaf (l : List ℚ) : poly (leaf l) = ∑ i ∈ Finset.range l.length, Polynomial.C (l.getD i 0) * Polynomial.X ^ i := by
+  simp only [leaf, poly, listCoeff, Finset.sum_range_succ]
+  rw [List.getD_eq_default _ _ (Nat.le_refl _)]; simp
+
+theorem poly_scale (c : ℚ) : ∀ g : G, poly (scale c g) = Polynomial.C c * poly g := by
+  intro g; induction g with
+  | fn f n => simp only [scale, poly, Finset.mul_sum, Polynomial.C_mul, mul_assoc]
+  | sum a b iha ihb => simp only [scale, poly, iha, ihb, mul_add]
+  | prod a b iha _ => simp only [scale, poly, iha, mul_assoc]
+
+/-- everything the operators build from coefficient lists satisfies the evaluation hypothesis -/
+theorem built_ok : ∀ e : E, LeafOK (build e) := by
+  intro e; induction e with
+  | cs l => exact leafOK_leaf l
+  | add a b iha ihb => exact ⟨iha, ihb⟩
+  | sub a b iha ihb => exact ⟨iha, leafOK_scale _ _ ihb⟩
+  | mul a b iha ihb => exact ⟨iha, ihb⟩
+  | smul a c ih => exact leafOK_scale _ _ ih
+  | div a c ih => exact leafOK_scale _ _ ih
+  | addc a c ih => exact ⟨ih, leafOK_leaf _⟩
+  | subc a c ih => exact ⟨ih, leafOK_leaf _⟩
+  | dx a k ih => exact leafOK_dx k _ ih
+
+theorem built_poly : ∀ e : E, poly (build e) = spec e := by
+  intro e; induction e with
+  | cs l => exact poly_leaf l
+  | add a b iha ihb => simp only [build, poly, spec, iha, ihb]
+  | sub a b iha ihb => simp only [build, poly, spec, poly_scale, iha, ihb]; simp [sub_eq_add_neg]
+  | mul a b iha ihb => simp only [build, poly, spec, iha, ihb]
+  | smul a c ih => simp only [build, spec, poly_scale, ih]
+  | div a c ih => simp only [build, spec, poly_scale, ih]
+  | addc a c ih => simp only [build, poly, spec, ih, poly_leaf]; simp
+  | subc a c ih => simp only [build, poly, spec, ih, poly_leaf]; simp [sub_eq_add_neg]
+  | dx a k ih => simp only [build, spec]; rw [poly_dx k _ (built_ok a), ih]
+
+/-- **C16.** For every expression over coefficient lists — of any length, any shape, any depth — the i-th coefficient
+    and the value at x that the code computes are those of the polynomial obtained by exact polynomial arithmetic;
+    derivatives are the case `e = .dx a k`. (Division is by a non-zero constant: Python raises for `f / 0`.) -/
+theorem three_views (e : E) (i : Nat) (x : ℚ) :
+    coeff (build e) i = (spec e).coeff i ∧ eval (build e) x = (spec e).eval x := by
+  rw [← built_poly e]
+  exact ⟨(poly_coeff _ (built_ok e) i).symm, (eval_poly x _).symm⟩
+
+/-- the derivative view spelled out: coefficients and values of `g.dx(k)` are those of the k-th derivative polynomial -/
+theorem derivative_views (e : E) (k i : Nat) (x : ℚ) :
+    coeff (GF.dx k (build e)) i = (Polynomial.derivative^[k] (spec e)).coeff i
+    ∧ eval (GF.dx k (build e)) x = (Polynomial.derivative^[k] (spec e)).eval x := three_views (.dx e k) i x
+
+/-- non-vacuity beyond the former fixed 301-term window: a list of n ones, for every n (302 included), has value n at 1 -/
+theorem ones_at_one (n : Nat) : eval (leaf (List.replicate n 1)) 1 = n := by
+  have h := (three_views (.cs (List.replicate n 1)) 0 1).2
+  simp only [build, spec] at h
+  rw [h, Polynomial.eval_finset_sum]
+  rw [Finset.sum_congr rfl (g := fun _ => (1 : ℚ))]
+  · simp
+  · intro i hi
+    rw [Finset.mem_range, List.length_replicate] at hi
+    simp [List.getD_eq_getElem?_getD, List.getElem?_replicate, hi]
+
 /-- what `Driver/GF.lean` prints (bottom-up tables, running powers) is the model's `coeff` / `eval`,
     so the correspondence run really compares the code with the functions the theorems above are about -/
 theorem driver_is_model (n : Nat) (e : G) (x : ℚ) :
     tab n e = (List.range n).map (coeff e) ∧ evalF e x = eval e x := ⟨tab_eq n e, evalF_eq x e⟩
 
 /-- non-vacuity: (1 + 2x)(3 + x) = 3 + 7x + 2x², its derivative is 7 + 4x -/
-example : coeff (.prod (.fn (listCoeff [1, 2])) (.fn (listCoeff [3, 1]))) 1 = 7 := by
-  simp [coeff, pairs, listCoeff, List.range, List.range.loop]; norm_num
-example : coeff (dx 1 (.prod (.fn (listCoeff [1, 2])) (.fn (listCoeff [3, 1])))) 1 = 4 := by
+example : coeff (.prod (leaf [1, 2]) (leaf [3, 1])) 1 = 7 := by
+  simp [coeff, pairs, leaf, listCoeff, List.range, List.range.loop]; norm_num
+example : coeff (dx 1 (.prod (leaf [1, 2]) (leaf [3, 1]))) 1 = 4 := by
   rw [coeff_dx_one]
-  simp [coeff, pairs, listCoeff, List.range, List.range.loop]; norm_num
+  simp [coeff, pairs, leaf, listCoeff, List.range, List.range.loop]; norm_num
 
-example : LeafOK (.prod (.fn (listCoeff [1, 2])) (.fn (listCoeff [3, 1]))) := by
-  refine ⟨?_, ?_⟩ <;> intro i hi <;> simp only [listCoeff] <;> rw [List.getD_eq_default] <;> simp <;> omega
+example : LeafOK (.prod (leaf [1, 2]) (leaf [3, 1])) := by
+  refine ⟨?_, ?_⟩ <;> intro i hi <;> simp only [listCoeff] <;> rw [List.getD_eq_default] <;> simp at hi ⊢ <;> omega
 
 end GF.C16
